@@ -16,6 +16,7 @@ import (
 
 	"github.com/FollowTheProcess/spok/ast"
 	"github.com/FollowTheProcess/spok/lexer"
+	"github.com/FollowTheProcess/spok/simhook"
 	"github.com/FollowTheProcess/spok/token"
 )
 
@@ -93,6 +94,7 @@ func (p *Parser) Parse() (ast.Tree, error) {
 
 // next returns, and consumes, the next token from the lexer.
 func (p *Parser) next() token.Token {
+	simhook.Point("parser.next", "")
 	if p.peekCount > 0 {
 		p.peekCount--
 	} else {
